@@ -114,13 +114,65 @@ def short_histories():
     return out
 
 
+def design_check(rep, tier):
+    """MCSmallVec.tla: the implementation-level model (size discriminant, inline slots, heap,
+    compaction loops as coded) refines the vector model and drops exactly once."""
+    depth = 7 if tier == "quick" else 9
+    info = {}
+    for n in (1, 2):
+        res = tlc.run_tlc("MCSmallVec", env={"N": n, "DEPTH": depth, "LEAK": 0, "GEN": 0}, workers=8,
+                          timeout=1800, allow_violation=True)
+        rep.add_tlc(res)
+        info["N=%d" % n] = {"depth": depth, "distinct_states": res.distinct}
+        if res.violated:
+            raise ToolError("MCSmallVec (N=%d): the implementation-level model violates %s\n%s" % (
+                n, res.violated, res.raw_tail))
+    rep.coverage["design_check"] = dict(info, invariants=["ContentsAgree", "IterAgrees", "NoBadAccess", "AtMostOnce",
+                                                          "NoDropWhileReachable", "ExactlyOnce"])
+
+
+def tlc_histories(rep, tier):
+    """Behaviours generated by the implementation-level model (every complete history up to
+    a depth bound: BFS without VIEW), converted to calls on vector 1 / iterator 101."""
+    out = []
+    depth = 5 if tier == "quick" else 6
+    for n in (1, 2):
+        res = tlc.run_tlc("MCSmallVec", cfg="MCSmallVecGen", env={"N": n, "DEPTH": depth, "LEAK": 0, "GEN": 1},
+                          workers=8, timeout=1800)
+        rep.add_tlc(res)
+        for r in res.records:
+            if "hist" not in r:
+                continue
+            calls = [call("new", 1)]
+            for h in r["hist"]:
+                op = h[0]
+                if op == "push":
+                    calls.append(call("push", 1, vals=[h[1]]))
+                elif op == "retain":
+                    calls.append(call("retain", 1, vals=list(h[1])))
+                elif op in ("clear", "dedup", "drop"):
+                    calls.append(call(op, 1))
+                elif op == "intoiter":
+                    calls.append(call("intoiter", 1, 101))
+                elif op == "next":
+                    calls.append(call("next", 101))
+                elif op == "dropiter":
+                    calls.append(call("dropiter", 101))
+            out.append((n, calls))
+    rep.coverage["tlc_generated_histories"] = {"depth": depth, "count": len(out)}
+    return out
+
+
 def c18(tier):
     rep = Report("C18", "model_checking", tier)
     sd = seed()
     rng = random.Random(sd)
     bins = build_harness(("release",))
     hv = bins["release"]
+    design_check(rep, tier)
     hists = []
+    for n, calls in tlc_histories(rep, tier):
+        hists.append((n, "tracked", calls))
     for h in short_histories():
         for n in (1, 2):
             hists.append((n, "tracked", h))
